@@ -33,7 +33,7 @@ def cases(tier, seed):
     nprob = 260 if tier == "quick" else 8000
     for i in range(nprob):
         fam = gen.pick(rng, list(CONVEX) * 2 + list(OTHER))
-        ps = gen.rand_spec(rng, (fam,), nmax=7, boxes=("mixed", "boxed", "narrow", "lower", "upper", "boxed_degenerate", "boxed_degenerate"),
+        ps = gen.rand_spec(rng, (fam,), nmax=7, boxes=("mixed", "boxed", "narrow", "narrow_far", "lower", "upper", "boxed_degenerate", "boxed_degenerate"),
                            starts=("face", "vertex", "outward", "interior"), condmax=1e3)
         yield {"problem": ps, "maxcor": int(rng.integers(1, 9)), "eps": float(gen.pick(rng, [1e-8, 1e-6])),
                "rel": gen.pick(rng, [None, None, 1e-7]), "maxls": int(gen.pick(rng, [5, 20]))}
